@@ -75,7 +75,7 @@ func (V4) Name() string    { return "nclient4" }
 func (V4) AcceptType() int { return int(dhcpv4.MessageTypeAck) }
 func (V4) OtherType() int  { return int(dhcpv4.MessageTypeNak) }
 func (V4) Classes() []string {
-	return []string{"matching", "other-type", "wrong-xid", "wrong-hw", "wrong-opcode", "undecodable", "empty"}
+	return []string{"matching", "other-type", "wrong-xid", "wrong-hw", "wrong-hw-empty", "wrong-opcode", "undecodable", "empty"}
 }
 func (V4) SetHook(h func(string)) { setHook4(h) }
 
